@@ -100,6 +100,24 @@ impl C17 {
                 if v0 != v1 {
                     let by_admin = ok && was_admin && matches!(op, Op::Inc { .. } | Op::Dec { .. });
                     let by_own_spend = ok && own_spend && a == sender && !was_admin;
+                    // an own spend may only lower the caller's own coins: never touch the expiry, never raise anything
+                    if by_own_spend && !by_admin {
+                        let fine = match (v0, v1) {
+                            (Some(b), Some(a)) => {
+                                let (mb, ma) = (b.map(), a.map());
+                                b.exp == a.exp && ma.iter().all(|(d, x)| *x <= *mb.get(d).unwrap_or(&0))
+                            }
+                            (Some(_), None) => false,
+                            _ => false,
+                        };
+                        if !fine {
+                            h.violate(
+                                "C17/Subkeys/execute/own-spend-altered-allowance-beyond-deduction",
+                                format!("allowance of {a}: {v0:?} -> {v1:?} in its own Execute"),
+                            );
+                            return false;
+                        }
+                    }
                     if !(by_admin || by_own_spend) {
                         h.violate(
                             &format!("C17/Subkeys/{kind}/allowance-changed-without-admin"),
